@@ -1,0 +1,63 @@
+package ot
+
+import (
+	"fmt"
+
+	"github.com/taurusgroup/multi-party-sig/internal/params"
+)
+
+// The correlated OT setups only have unexported fields. Without explicit (un)marshalling they
+// are serialized as an empty map, and a stored Doerner config can no longer sign after it has
+// been restored.
+
+const setupMatrixBytes = params.OTParam * params.OTBytes
+
+// MarshalBinary implements encoding.BinaryMarshaler.
+func (s *CorreOTSendSetup) MarshalBinary() ([]byte, error) {
+	out := make([]byte, 0, params.OTBytes+setupMatrixBytes)
+	out = append(out, s._Delta[:]...)
+	for i := range s._K_Delta {
+		out = append(out, s._K_Delta[i][:]...)
+	}
+	return out, nil
+}
+
+// UnmarshalBinary implements encoding.BinaryUnmarshaler.
+func (s *CorreOTSendSetup) UnmarshalBinary(data []byte) error {
+	if len(data) != params.OTBytes+setupMatrixBytes {
+		return fmt.Errorf("ot: invalid length for CorreOTSendSetup: %d", len(data))
+	}
+	copy(s._Delta[:], data)
+	data = data[params.OTBytes:]
+	for i := range s._K_Delta {
+		copy(s._K_Delta[i][:], data[i*params.OTBytes:])
+	}
+	return nil
+}
+
+// MarshalBinary implements encoding.BinaryMarshaler.
+func (s *CorreOTReceiveSetup) MarshalBinary() ([]byte, error) {
+	out := make([]byte, 0, 2*setupMatrixBytes)
+	for i := range s._K_0 {
+		out = append(out, s._K_0[i][:]...)
+	}
+	for i := range s._K_1 {
+		out = append(out, s._K_1[i][:]...)
+	}
+	return out, nil
+}
+
+// UnmarshalBinary implements encoding.BinaryUnmarshaler.
+func (s *CorreOTReceiveSetup) UnmarshalBinary(data []byte) error {
+	if len(data) != 2*setupMatrixBytes {
+		return fmt.Errorf("ot: invalid length for CorreOTReceiveSetup: %d", len(data))
+	}
+	for i := range s._K_0 {
+		copy(s._K_0[i][:], data[i*params.OTBytes:])
+	}
+	data = data[setupMatrixBytes:]
+	for i := range s._K_1 {
+		copy(s._K_1[i][:], data[i*params.OTBytes:])
+	}
+	return nil
+}
